@@ -1,6 +1,7 @@
 --------------------------- MODULE WalRecoveryMC ---------------------------
 (* Closed system around WalRecovery: every pre-crash state of the bounded    *)
-(* domain, every crash image of it, every damage; one behaviour =            *)
+(* domain (with every history of append + TruncateLog rounds that leads to   *)
+(* it), every crash image of it, every damage; one behaviour =               *)
 (*     pre  --Crash-->  crashed  --Recover-->  recovered                     *)
 (* Used (1) to check exhaustively that recovery in the shape of the          *)
 (* implementation (Model) satisfies the property (RecoveryOk), and that each *)
